@@ -145,26 +145,38 @@ pub struct ZeroPt {
     m: usize,
     spelling: usize,
     complex: bool,
+    /// the dividend is itself a spelling of zero (0..=4 as for the divisor, 5: from_slice(&[0,0,0]), 6: from_slice(&[0,0]))
+    #[serde(default)]
+    zero_dividend: Option<usize>,
 }
 pub struct ZeroDivisor;
+fn zero_spelling<N: Fld>(k: usize) -> Polynomial<N> {
+    let z = N::from_c(C::new(0.0, 0.0));
+    match k {
+        0 => Polynomial::new(),
+        1 => Polynomial::from_slice(&[z]),
+        2 => Polynomial::from_slice(&[]),
+        3 => <Polynomial<N> as num_traits::Zero>::zero(),
+        4 => Polynomial::with_tolerance(1e-6).unwrap(),
+        5 => Polynomial::from_slice(&[z, z, z]),
+        _ => Polynomial::from_slice(&[z, z]),
+    }
+}
 fn zero_point<N: Fld>(p: &ZeroPt) -> Outcome {
     let mut o = Outcome::new();
     let a = pattern(p.m % 4, p.m, N::COMPLEX, 9).to_c();
-    let pa: Polynomial<N> = mk(&a);
-    let names = ["Polynomial::new()", "from_slice(&[0])", "from_slice(&[])", "Zero::zero()", "with_tolerance(1e-6)"];
-    let z: Polynomial<N> = match p.spelling {
-        0 => Polynomial::new(),
-        1 => Polynomial::from_slice(&[N::from_c(C::new(0.0, 0.0))]),
-        2 => Polynomial::from_slice(&[]),
-        3 => <Polynomial<N> as num_traits::Zero>::zero(),
-        _ => Polynomial::with_tolerance(1e-6).unwrap(),
+    let pa: Polynomial<N> = match p.zero_dividend {
+        Some(k) => zero_spelling::<N>(k),
+        None => mk(&a),
     };
-    match vcore::guard(|| pa.divide(&z)) {
+    let names = ["Polynomial::new()", "from_slice(&[0])", "from_slice(&[])", "Zero::zero()", "with_tolerance(1e-6)", "from_slice(&[0,0,0])", "from_slice(&[0,0])"];
+    let z: Polynomial<N> = zero_spelling::<N>(p.spelling);
+    match vcore::guard_timeout(10, move || pa.divide(&z)) {
         Ok(Err(_)) => {}
-        Ok(Ok((q, r))) => o.viol("polynomial::divide", "zero-divisor-is-err", format!("deg {} / {} {}: Ok(q={:?}, r={:?})", p.m, names[p.spelling], N::NAME, q.get_coefficients(), r.get_coefficients())),
-        Err(m) => o.viol("polynomial::divide", "no-panic", format!("deg {} / {}: {}", p.m, names[p.spelling], m)),
+        Ok(Ok((q, r))) => o.viol("polynomial::divide", "zero-divisor-is-err", format!("{} / {} {}: Ok(q={:?}, r={:?})", p.zero_dividend.map(|k| names[k].to_string()).unwrap_or(format!("deg {}", p.m)), names[p.spelling], N::NAME, q.get_coefficients(), r.get_coefficients())),
+        Err(m) => o.viol("polynomial::divide", if m.contains("non-terminating") { "zero-divisor-is-err" } else { "no-panic" }, format!("deg {} / {} {}: {}", p.m, names[p.spelling], N::NAME, m)),
     }
-    o.sig = format!("{}|{}", names[p.spelling], N::NAME);
+    o.sig = format!("{}|{}|{}", names[p.spelling], N::NAME, if p.zero_dividend.is_some() { "zero-dividend" } else { "nonzero-dividend" });
     o
 }
 impl Check for ZeroDivisor {
@@ -173,14 +185,21 @@ impl Check for ZeroDivisor {
         "zero-divisor"
     }
     fn rule(&self) -> String {
-        "dividend degree 0..=10 x 5 spellings of the zero polynomial x 2 fields: must be Err; signature = (spelling, field)".into()
+        "(dividend degree 0..=10 x 7 spellings of the zero polynomial, two of them padded to order 2 and 1) + (7 spellings of a zero dividend x 7 spellings of a zero divisor) x 2 fields: must be Err; signature = (spelling, field, dividend class)".into()
     }
     fn points(&self, _t: Tier) -> Vec<ZeroPt> {
         let mut v = vec![];
         for m in 0..=10 {
-            for spelling in 0..5 {
+            for spelling in 0..7 {
                 for complex in [false, true] {
-                    v.push(ZeroPt { m, spelling, complex });
+                    v.push(ZeroPt { m, spelling, complex, zero_dividend: None });
+                }
+            }
+        }
+        for k in 0..7 {
+            for spelling in 0..7 {
+                for complex in [false, true] {
+                    v.push(ZeroPt { m: 0, spelling, complex, zero_dividend: Some(k) });
                 }
             }
         }
